@@ -55,7 +55,7 @@ def make_doc(rng):
     if len(lets) >= 2 and rng.random() < 0.25:
         import copy
         i, j = rng.sample(lets, 2)
-        d.wrappers[j] = ("let", copy.deepcopy(d.wrappers[i][1]))
+        d.wrappers[j] = ("let", copy.deepcopy(d.wrappers[i][1])) + tuple(d.wrappers[i][2:])
     if rng.random() < 0.1 and not any(e.path[:1] == [AT_NAMES[0]] for e in d.target.entries):
         d.target.entries.append(canon.Entry("quoted", [AT_NAMES[0]], value=g.value()))
     # ... and in the body itself: `@name` must still address the let layer
